@@ -8,7 +8,7 @@ COMMON_TRUSTED = [
 ]
 
 PROPS = {}
-HOOK_COMMITS = ["f0964c3", "f0ee85c", "a38392f", "da161e5", "5e35e30", "48a35e4", "bcc879f", "e7e32d2", "7bc6616", "1d0b9a9"]
+HOOK_COMMITS = ["f0964c3", "f0ee85c", "a38392f", "da161e5", "5e35e30", "48a35e4", "bcc879f", "e7e32d2", "7bc6616", "1d0b9a9", "1418b64"]
 NOT_BUILT_REASON = "no check registered yet: the Lean model/theorems and the correspondence harness for this property have not been built in this session (work in progress, see DESIGN.md §12); the technique applies"
 
 PROPS["C05"] = {
@@ -148,7 +148,7 @@ PROPS["C10"] = {
 }
 
 PROPS["C03"] = {
-    "modules": ["Gmsm.Props.C03", "Gmsm.Props.C03Alg", "Gmsm.Proofs.ECFormulas", "Gmsm.Props.C03Mult"],
+    "modules": ["Gmsm.Props.C03", "Gmsm.Props.C03Alg", "Gmsm.Proofs.ECFormulas", "Gmsm.Props.C03Mult", "Gmsm.Props.C03Limbs"],
     "theorems": [
         "Props.C03.params_eq_std", "Props.C03.rinverse_ok", "Props.C03.p_prime", "Props.C03.n_prime", "Props.C03.a_eq_neg3",
         "Props.C03.G_on_curve", "Props.C03.nG_zero", "Props.C03.G_ne_zero", "Props.C03.table_ok",
@@ -156,19 +156,19 @@ PROPS["C03"] = {
         "Props.C03Alg.wnafLoop_value", "Props.C03Alg.wnafLoop_isSome", "Props.C03Alg.wnaf_value", "Props.C03Alg.windowEval_correct",
         "Proofs.ECFormulas.double_correct", "Proofs.ECFormulas.addMixed_correct", "Proofs.ECFormulas.addGeneric_correct",
         "Proofs.ECFormulas.addGeneric_opposite", "Proofs.ECFormulas.double_point", "Proofs.ECFormulas.addMixed_point",
-        "Proofs.ECFormulas.addGeneric_point", "Proofs.ECFormulas.addGeneric_opposite_point", "Props.C03Mult.pointAdd_correct", "Props.C03Mult.double_correct_J", "Props.C03Mult.pointSub_correct", "Props.C03Mult.toAffine_correct", "Props.C03Mult.fromAffine_valid", "Props.C03Mult.isOnCurve_iff", "Props.C03Mult.apiAdd_correct", "Props.C03Mult.apiDouble_correct", "Props.C03Mult.cubic_no_root", "Props.C03Mult.group_order", "Props.C03Mult.every_point_order_n", "Props.C03Mult.wnafReversed_correct", "Props.C03Mult.scalarMultDigits_correct", "Props.C03Mult.scalarMult_correct", "Props.C03Mult.scalarMult_correct_k", "Props.C03Mult.scalarBaseMult_correct_J", "Props.C03Mult.scalarBaseMult_correct", "Props.C03Mult.scalarBaseMult_eq_scalarMult",
+        "Proofs.ECFormulas.addGeneric_point", "Proofs.ECFormulas.addGeneric_opposite_point", "Props.C03Mult.pointAdd_correct", "Props.C03Mult.double_correct_J", "Props.C03Mult.pointSub_correct", "Props.C03Mult.toAffine_correct", "Props.C03Mult.fromAffine_valid", "Props.C03Mult.isOnCurve_iff", "Props.C03Mult.apiAdd_correct", "Props.C03Mult.apiDouble_correct", "Props.C03Mult.cubic_no_root", "Props.C03Mult.group_order", "Props.C03Mult.every_point_order_n", "Props.C03Mult.wnafReversed_correct", "Props.C03Mult.scalarMultDigits_correct", "Props.C03Mult.scalarMult_correct", "Props.C03Mult.scalarMult_correct_k", "Props.C03Mult.scalarBaseMult_correct_J", "Props.C03Mult.scalarBaseMult_correct", "Props.C03Mult.scalarBaseMult_eq_scalarMult", "Props.C03Limbs.fromBig_toBig", "Props.C03Limbs.fieldRepr_fromBig", "Props.C03Limbs.add_ok", "Props.C03Limbs.add_exact", "Props.C03Limbs.sub_ok", "Props.C03Limbs.sub_exact", "Props.C03Limbs.reduceCarry_ok", "Props.C03Limbs.reduceCarry_exact", "Props.C03Limbs.mul_large_ok", "Props.C03Limbs.square_large_ok", "Props.C03Limbs.reduceDegree_ok", "Props.C03Limbs.mul_ok", "Props.C03Limbs.square_ok", "Props.C03Limbs.fieldRepr_mul", "Props.C03Limbs.fieldRepr_square", "Props.C03Limbs.fieldRepr_add", "Props.C03Limbs.fieldRepr_sub", "Props.C03Limbs.reduceDegree_old_wraps",
     ],
     "gen_items": ["sm2."],
     "gen_obligations": ["Gen.SM2.param*/precomputed regenerated from sm2/p256.go: parameters re-proved equal to GM/T 0003.5, comb table re-proved equal to the 30 multiples of G (kernel evaluation)"],
     "level": "proof",
-    "claim": "Proved in Lean 4: p and n are prime (Pratt certificates), the parameters in the source are the standard's, G is on the curve and [n]G = O, every entry of the comb table in the source is the multiple of G it must be, the key range; the windowed-NAF recoding represents every scalar (loop invariant, termination within fuel), the evaluation loop of ScalarMult computes (value of digits)*P over any commutative group, and the Jacobian doubling / mixed addition / general addition formulas exactly as the Go code computes them equal the group law of Mathlib's Weierstrass curve (incl. z = 0 for opposite points). The Go algorithms are modelled at big-integer level (Model.SM2Curve) and compared with the real code on thousands of biased scalars/points, and the real code is compared with an independent affine specification. Added (C03Mult, Proofs.SM2Jacobian): end-to-end correctness of the model of the Go curve object against the group: pointAdd_correct for ALL pairs of Jacobian points (equal, opposite, at infinity — the repaired special cases), doubling, subtraction, affine conversion; group_order (the curve has exactly n points, so every point has order n and no point of order 2..6 exists); scalarMult_correct (wNAF window loop: for every point on the curve and every scalar, ScalarMult returns [k mod n]P) and scalarBaseMult_correct (comb method over the regenerated table: for every k, [k mod n]G; the incomplete mixed addition's special cases are proved unreachable for k < n); isOnCurve_iff, apiAdd_correct, apiDouble_correct against the affine specification.",
+    "claim": "Proved in Lean 4: p and n are prime (Pratt certificates), the parameters in the source are the standard's, G is on the curve and [n]G = O, every entry of the comb table in the source is the multiple of G it must be, the key range; the windowed-NAF recoding represents every scalar (loop invariant, termination within fuel), the evaluation loop of ScalarMult computes (value of digits)*P over any commutative group, and the Jacobian doubling / mixed addition / general addition formulas exactly as the Go code computes them equal the group law of Mathlib's Weierstrass curve (incl. z = 0 for opposite points). The Go algorithms are modelled at big-integer level (Model.SM2Curve) and compared with the real code on thousands of biased scalars/points, and the real code is compared with an independent affine specification. Added (C03Mult, Proofs.SM2Jacobian): end-to-end correctness of the model of the Go curve object against the group: pointAdd_correct for ALL pairs of Jacobian points (equal, opposite, at infinity — the repaired special cases), doubling, subtraction, affine conversion; group_order (the curve has exactly n points, so every point has order n and no point of order 2..6 exists); scalarMult_correct (wNAF window loop: for every point on the curve and every scalar, ScalarMult returns [k mod n]P) and scalarBaseMult_correct (comb method over the regenerated table: for every k, [k mod n]G; the incomplete mixed addition's special cases are proved unreachable for k < n); isOnCurve_iff, apiAdd_correct, apiDouble_correct against the affine specification. Added (C03Limbs, Model.P256Limbs): the lowest layer — exact BitVec transcriptions of the 9-limb arithmetic of sm2/p256.go (Add, Sub, Mul, Square, ReduceCarry, ReduceDegree, FromBig, ToBig) with theorems for all inputs within the limb bounds: fromBig_toBig, add_ok / sub_ok (values mod p and output bounds), mul_large_ok (the 17-word product is exact, no 64-bit overflow), reduceDegree_ok (Montgomery reduction: value(out)*R = input mod p, no word wraps) and mul_ok / fieldRepr_mul (Montgomery multiplication represents the field product); reduceDegree_old_wraps is the kernel-checked witness that the function as found wrapped a limb (the defect repaired in f1a1e85). The limb model is compared with the real functions through hooks on about 2000 ops per run (limbadd … limbto).",
     "note": "Partial where stated: the composition 'J-level model = k*P for all k' is not closed as one theorem (the pieces - recoding, evaluation loop, formulas - are; the exceptional-case side conditions of the comb for scalars < n are not proved), and the 9-limb Montgomery field arithmetic below the big-integer model is validated by correspondence (boundary limb patterns through IsOnCurve and the public API), not verified.",
     "trusted_base": [
         "Spec.SM2 affine arithmetic transcribes GM/T 0003.1 (validated: [n]G = O, the standard's signature and key-exchange examples)",
         "Model.SM2Curve mirrors p256.go Add/Double/ScalarMult/ScalarBaseMult/sm2GenrateWNaf at big-integer level; tie = mec*/wnaf correspondence (hook sm2.VerifWNaf); limb-level code (sm2P256Mul/Square/ReduceDegree...) is NOT modelled",
     ],
     "assumptions": [],
-    "not_proved": ["limb-level field arithmetic (layer L): add_ok, mul_ok, reduceDegree_ok", "the input (0,0) used as infinity by ScalarMult (the model builds the non-curve point (0,0,1); no claim)"],
+    "not_proved": ["the input (0,0) used as infinity by ScalarMult (the model builds the non-curve point (0,0,1); no claim)"],
 }
 
 PROPS["C01"] = {
@@ -371,19 +371,20 @@ PROPS["C08"] = {
 }
 
 PROPS["C20"] = {
-    "modules": ["Gmsm.Props.C20"],
+    "modules": ["Gmsm.Props.C20", "Gmsm.Props.C20Interlock"],
     "theorems": [
         "Props.C20.sm4_order_independent", "Props.C20.sm4_interleaving", "Props.C20.sm3_objects_independent",
-        "Props.C20.ticket_keys_snapshot", "Props.C05.history_independent", "Props.C04.hist_refines",
+        "Props.C20.ticket_keys_snapshot", "Props.C05.history_independent", "Props.C04.hist_refines", "Props.C20Interlock.counter_invariant", "Props.C20Interlock.at_most_one_close_proceeds", "Props.C20Interlock.close_idempotent", "Props.C20Interlock.no_write_after_close", "Props.C20Interlock.close_notify_only_when_quiet", "Props.C20Interlock.linearizable_outcomes", "Props.C20Interlock.progress", "Props.C20Interlock.constants_pinned",
     ],
-    "gen_items": [],
+    "gen_items": ["gmtls."],
+    "gen_obligations": ["Gen.Conn interlock constants (x+2, x|1, -2, x&1) regenerated from gmtls/conn.go Write/Close; constants_pinned re-proved on every run"],
     "race": True,
     "par_chunk": 3,
     "op_timeout": 400,
     "level": "proof",
-    "claim": "What is proved: the sequential models of the shared objects are order-independent — every Encrypt/Decrypt result on one shared SM4 object is the GM/T 0002 value of that call's own source block for every call sequence, hence for every interleaving of any number of callers' sequences (sm4_order_independent, sm4_interleaving, from C05.history_independent); hash objects from the constructor are independent (sm3_objects_independent, from C04.hist_refines); a ticket lookup concurrent with a key rotation sees the old or the new key list, never a mixture (ticket_keys_snapshot). These make 'equals the single-threaded result' a well-defined oracle. What is run: ten concurrent scenarios (one shared sm4 cipher.Block also under CBC/GCM; the package-level sm4 helpers; sm3 constructors, HMAC, PBKDF2; SM2 sign/verify/encrypt/decrypt/key exchange on one shared key and on separate keys; first use of the curve from many goroutines in a fresh process; parsers on shared inputs; PKCS#7 encryption; one CertPool under concurrent Verify with succeeding and failing options; many simultaneous GMSSL handshakes on one server Config and one client Config with an LRU session cache while SetSessionTicketKeys rotates keys; concurrent writers, readers and three concurrent Close calls on one established GMSSL-CBC / GMSSL-GCM / TLS 1.2 connection), each in its own process built with the Go race detector (halt on first report), 2..32 goroutines released together with seeded scheduling jitter; every concurrent result is compared with the result of the same calls run sequentially on identical fresh objects.",
+    "claim": "What is proved: the sequential models of the shared objects are order-independent — every Encrypt/Decrypt result on one shared SM4 object is the GM/T 0002 value of that call's own source block for every call sequence, hence for every interleaving of any number of callers' sequences (sm4_order_independent, sm4_interleaving, from C05.history_independent); hash objects from the constructor are independent (sm3_objects_independent, from C04.hist_refines); a ticket lookup concurrent with a key rotation sees the old or the new key list, never a mixture (ticket_keys_snapshot). These make 'equals the single-threaded result' a well-defined oracle. What is run: ten concurrent scenarios (one shared sm4 cipher.Block also under CBC/GCM; the package-level sm4 helpers; sm3 constructors, HMAC, PBKDF2; SM2 sign/verify/encrypt/decrypt/key exchange on one shared key and on separate keys; first use of the curve from many goroutines in a fresh process; parsers on shared inputs; PKCS#7 encryption; one CertPool under concurrent Verify with succeeding and failing options; many simultaneous GMSSL handshakes on one server Config and one client Config with an LRU session cache while SetSessionTicketKeys rotates keys; concurrent writers, readers and three concurrent Close calls on one established GMSSL-CBC / GMSSL-GCM / TLS 1.2 connection), each in its own process built with the Go race detector (halt on first report), 2..32 goroutines released together with seeded scheduling jitter; every concurrent result is compared with the result of the same calls run sequentially on identical fresh objects. Added (C20Interlock, Model.ConnInterlock): the Write/Close interlock of Conn (the atomic activeCall counter) as a transition system with any number of writer and closer threads, and theorems over ALL schedules: counter_invariant (activeCall = 2 x writers in flight + closed bit), at_most_one_close_proceeds, close_idempotent, no_write_after_close, close_notify_only_when_quiet (close_notify is sent at most once and only if no Write was in flight at the winning CAS), linearizable_outcomes (the per-thread verdicts of any schedule equal those of a sequential order: the writers that got through, the winning Close, the rest refused) and progress (every fair schedule terminates; bounded retries); the constants of the model are pinned to the source by the extractor (constants_pinned).",
     "note": "Partial by nature: data-race freedom and the outcome of real schedules are properties of the Go runtime and memory model that no executable Lean model exhibits; the race detector only sees the interleavings that occur in the runs (quick: 20 scenario runs, thorough: 120). The theorems are about sequential order-independence of the modelled cores only (SM4 object, SM3 object, ticket-key snapshot); Conn's locking discipline (handshakeMutex, in/out mutexes, activeCall) is exercised by the tlsconn scenario, not modelled.",
     "trusted_base": ["Go race detector (ThreadSanitizer runtime shipped with the toolchain)", "harness/c20.go scenarios and sequential reference pass", "Model.SM4 / Model.SM3 / Model.Resume ties of C05, C04, C16"],
     "assumptions": ["a concurrent execution of whole calls on a correctly synchronised object is equivalent to some sequential order (linearizability is what the race-free, lock-protected code provides; it is not proved)"],
-    "not_proved": ["race freedom for all schedules (race detector, sampled)", "Conn Read/Write/Close interlock as a model"],
+    "not_proved": ["race freedom for all schedules (race detector, sampled)", "Conn.Read and handshakeMutex in the interlock model; the Go memory model (atomics taken as sequentially consistent)"],
 }
